@@ -415,7 +415,7 @@ with parse_internal (fuel : nat) (w : pw) (c : cfg) (level : nat) (p : pst) {str
               match ro with
               | None =>
                   if cflag c CFGF_IGNORE_UNKNOWN then continue w c (st_state (st_opt p None) 10)
-                  else if cflag c CFGF_KEYSTRVAL then
+                  else if cflag c CFGF_KEYSTRVAL && negb (match name with [] => true | _ => false end) then
                     let '(c1, r) := addopt c name in continue w c1 (st_state (st_opt p (Some r)) 1)
                   else match name with
                        | [] => errd w c "no such option '%s'"
